@@ -126,6 +126,14 @@ def _worker(args):
     common.load_biobalm()
     mod = importlib.import_module(f"props.{pid}")
     t0 = time.time()
+    if isinstance(case, dict) and case.get("_decoy") is not None:
+        # history of the process: a related network (same names, other positions / signs / logic) is put
+        # through the same calls first; its results are ignored, the real case must be unaffected by it
+        try:
+            common.guarded(timeout, mod.run_case, case["_decoy"])
+        except BaseException as e:
+            if isinstance(e, KeyboardInterrupt):
+                raise
     try:
         r = common.guarded(timeout, mod.run_case, case)
     except common.Timeout:
@@ -213,7 +221,7 @@ def main():
     cases = list(mod.corpus()) if hasattr(mod, "corpus") else []
     ncorpus = len(cases)
     for k in range(ncases):
-        cases.append(mod.gen_case(rng, tier, k))
+        cases.append(common.with_decoy(mod, mod.gen_case(rng, tier, k), f"{pid}/{seed}/{tier}/decoy/{k}"))
     timeout = getattr(mod, "CASE_TIMEOUT", {"quick": 30, "thorough": 120})[tier]
     results = run_campaign(pid, mod, cases, timeout)
 
@@ -239,7 +247,7 @@ def main():
     searched = 0
     if not fails and (diffs or proofs["problems"]):
         # broken correspondence / proof obligation without a failing input: search harder
-        extra = [mod.gen_case(rng, tier, ncases + k) for k in range(4 * ncases)]
+        extra = [common.with_decoy(mod, mod.gen_case(rng, tier, ncases + k), f"{pid}/{seed}/{tier}/decoy/{ncases + k}") for k in range(4 * ncases)]
         if diffs and hasattr(mod, "neighbours"):
             for d, c in diffs[:5]:
                 extra = list(mod.neighbours(c, rng)) + extra
